@@ -250,6 +250,11 @@ def r2_rejection_effect_free(R) -> None:
                 continue
             for e in on_path:
                 en = cfg.nodes[e]
+                from rules import memo as _memo
+                lab_ = _memo.owned(R.repo, en.ast) if en.ast is not None else None
+                if lab_ is not None:
+                    R.ok(q, f'`{en.label()[:50]}` fills the cache `{lab_}` (no model value): whether what it keeps can go stale is decided by rule C04.M')
+                    continue
                 p = cfg.some_path(e, r.id)
                 what_ = stmt_key(en.ast)
                 a_ = en.ast
@@ -305,11 +310,11 @@ def r3_feasibility_guard(R) -> None:
     for which in ('lags', 'leads'):
         tn = [n for (w, n) in found if w == which]
         if not tn:
-            R.violation(sh.q, f'feasibility-missing:{which}',
-                        f'no rejection of a period that cannot accommodate the model\'s {which} '
-                        f'(expected a comparison of the normalised position with '
-                        f'{"self.lags" if which == "lags" else "len(self.span) - 1 - self.leads"}): reads would wrap round the span',
-                        where=sh.where(sh.loop))
+            R.check(False, sh.q, f'feasibility-missing:{which}', '',
+                    f'no rejection of a period that cannot accommodate the model\'s {which} '
+                    f'(expected a comparison of the normalised position with '
+                    f'{"self.lags" if which == "lags" else "len(self.span) - 1 - self.leads"}): reads would wrap round the span',
+                    where=sh.where(sh.loop))
             continue
         n = tn[0]
         rs = [r for r in sh.raises('IndexError') if (n.id, 'T') in sh.guards_of(r.id)]
